@@ -161,6 +161,12 @@ class MacroGen:
             return ["usplice", self.rng.randrange(nparams)]
         if r < 0.75 and [n for n, k in scope.items() if k == "clos"]:
             return ["call", self.rng.choice([n for n, k in scope.items() if k == "clos"])]
+        if r < 0.82 and getattr(self, "cur_ctx", None) == "method" and depth <= 1:
+            # a receiverless call of a METHOD of the enclosing module whose name is also a caller local / parameter:
+            # hygienic code must reach the method, never the caller's variable
+            cand = [n for n in CALLER_NAMES if n not in scope]
+            if cand:
+                return ["mcall", self.rng.choice(cand), self.expr(scope, nparams, depth + 1, allow_usplice)]
         return ["add", self.expr(scope, nparams, depth + 1, allow_usplice), self.expr(scope, nparams, depth + 1, allow_usplice)]
 
     def pick_new_name(self, scope):
@@ -241,7 +247,8 @@ class MacroGen:
         rng = self.rng
         self.want_unhyg = rng.random() < self.k["unhyg"]
         nparams = rng.randint(0, 2)
-        ctxk = self.k["ctx"] or rng.choice(["top", "top", "method", "block", "if"])
+        ctxk = self.k["ctx"] or rng.choice(["top", "top", "method", "method", "block", "if"])
+        self.cur_ctx = ctxk
         decls = {n: rng.randint(10, 99) * 10 for n in CALLER_NAMES if rng.random() < 0.85}
         if not decls:
             decls = {"a": 50}
@@ -320,6 +327,8 @@ def analyse(prog):
             return {"@" + n for n in argn[e[1]]}
         if e[0] == "let":
             return reads(e[2]) | reads(e[3])
+        if e[0] == "mcall":
+            return reads(e[2])
         return set()
     argn = [set().union(*[names_of_arg(c["args"][i]) for c in prog["calls"]]) if prog["calls"] else set()
             for i in range(prog["nparams"])]
@@ -339,6 +348,9 @@ def analyse(prog):
                     capture.append(n)
         elif e[0] == "hsplice":
             pass
+        elif e[0] == "mcall":
+            info["mcall"] = True
+            ex(e[2], scopes)
         elif e[0] == "let":
             ex(e[2], scopes)
             rd = reads(e[2])
@@ -403,6 +415,8 @@ def p_expr(e, ren):
         return "!{p%d}" % e[1]
     if e[0] == "let":
         return f"({ren(e[1])} := {p_expr(e[2], ren)}) + {p_expr(e[3], ren)}"
+    if e[0] == "mcall":
+        return f"{e[1]}({p_expr(e[2], ren)})"
     raise ValueError(e)
 
 
@@ -442,18 +456,20 @@ def p_stmts(stmts, ren, ind):
     return out
 
 
-def p_arg(a):
+def p_arg(a, crn=lambda n: n):
     if a[0] == "int":
         return str(a[1])
     if a[0] == "cvar":
-        return a[1]
-    return f"{p_arg(a[1])} + {p_arg(a[2])}"
+        return crn(a[1])
+    return f"{p_arg(a[1], crn)} + {p_arg(a[2], crn)}"
 
 
-def render(prog, fresh):
+def render(prog, fresh, caller_fresh=False):
     """fresh=False: macro locals keep their (colliding) names; fresh=True: every hygienic identifier of the macro
     body is renamed x -> hq_x (consistent renaming of the macro's locals)."""
     ren = (lambda n: "hq_" + n) if fresh else (lambda n: n)
+    # caller_fresh: the CALLER's locals / parameters are renamed n -> cq_n (hygienic code of the macro cannot notice)
+    crn = (lambda n: "cq_" + n) if caller_fresh else (lambda n: n)
     uid = prog["uid"]
     mname = f"mq{uid}"
     params = ", ".join(f"p{i}: ExpressionNode" for i in range(prog["nparams"]))
@@ -465,35 +481,38 @@ def render(prog, fresh):
     L += ["  end", "end"]
     calls = []
     for i, c in enumerate(prog["calls"]):
-        call = f"{mname}!({', '.join(p_arg(a) for a in c['args'])})"
+        call = f"{mname}!({', '.join(p_arg(a, crn) for a in c['args'])})"
         if c["as"] == "value":
             calls.append(f"r{i} := {call}")
             calls.append(f"println(r{i}.inspect)")
         else:
             calls.append(call)
         for n in prog["decls"]:
-            calls.append(f"println({n})")
+            calls.append(f"println({crn(n)})")
     if prog["leak_probe"]:
         calls.append(f"println({ren(prog['leak_probe'])})")
     d = prog["decls"]
     ctx = prog["ctx"]
     if ctx == "top":
-        L += [f"{n} := {v}" for n, v in d.items()] + calls
+        L += [f"{crn(n)} := {v}" for n, v in d.items()] + calls
     elif ctx == "if":
-        L += [f"{n} := {v}" for n, v in d.items()]
+        L += [f"{crn(n)} := {v}" for n, v in d.items()]
         first = next(iter(d))
-        L += [f"if {first} > 0"] + ["  " + x for x in calls] + ["end"]
-        L += [f"println({n})" for n in d]
+        L += [f"if {crn(first)} > 0"] + ["  " + x for x in calls] + ["end"]
+        L += [f"println({crn(n)})" for n in d]
     elif ctx == "method":
         ps = list(d.items())
-        L += [f"module MQ{uid}", f"  def run({', '.join(n + ': Int' for n, _ in ps[:2])}): Int"]
-        L += [f"    {n} := {v}" for n, v in ps[2:]]
+        L += [f"module MQ{uid}"]
+        # methods of the enclosing module named like the caller's locals / parameters (reached by `mcall` nodes)
+        L += [f"  def {n}(x: Int): Int then x + {1000 * (k + 1)}" for k, n in enumerate(CALLER_NAMES)]
+        L += [f"  def run({', '.join(crn(n) + ': Int' for n, _ in ps[:2])}): Int"]
+        L += [f"    {crn(n)} := {v}" for n, v in ps[2:]]
         L += ["    " + x for x in calls] + ["    0", "  end", "end"]
         L += [f"MQ{uid}.run({', '.join(str(v) for _, v in ps[:2])})"]
     elif ctx == "block":
-        L += [f"{n} := {v}" for n, v in d.items()]
+        L += [f"{crn(n)} := {v}" for n, v in d.items()]
         L += ["do"] + ["  " + x for x in calls] + ["end"]
-        L += [f"println({n})" for n in d]
+        L += [f"println({crn(n)})" for n in d]
     return "\n".join(L) + "\n"
 
 
@@ -581,10 +600,14 @@ def evaluate(progs):
     infos = [analyse(p) for p in progs]
     srcP = [render(p, False) for p in progs]
     srcF = [render(p, True) for p in progs]
+    # C: the CALLER's locals renamed (module names made unique: method tables are process-global)
+    srcC = [render(p, False, caller_fresh=True).replace(f"MQ{p['uid']}", f"MQ{p['uid']}C").replace(f"mq{p['uid']}", f"mq{p['uid']}C")
+            for p in progs]
     runs = prun([{"id": f"P{i}", "src": s, "timeout_ms": 4000} for i, s in enumerate(srcP)]
-                + [{"id": f"F{i}", "src": s, "timeout_ms": 4000} for i, s in enumerate(srcF)])
+                + [{"id": f"F{i}", "src": s, "timeout_ms": 4000} for i, s in enumerate(srcF)]
+                + [{"id": f"C{i}", "src": s, "timeout_ms": 4000} for i, s in enumerate(srcC)])
     runs = retry_timeouts(runs)
-    rp, rf = runs[:len(progs)], runs[len(progs):]
+    rp, rf, rc = runs[:len(progs)], runs[len(progs):2 * len(progs)], runs[2 * len(progs):]
     exps = prun([{"id": f"E{i}", "src": s} for i, s in enumerate(srcF)], sub="expand")
     paste_reqs, idx = [], []
     for i, e in enumerate(exps):
@@ -616,6 +639,12 @@ def evaluate(progs):
             if oP[0] != "rejected":
                 fails.append(("hygiene-accepts", f"{why}; expected a rejection, got {oP}"))
         else:
+            oC = obs(rc[i])
+            if oP != oC and not info["capture"] and not info["shadow_init"] and p["leak_probe"] is None:
+                fails.append(("hygiene-differs",
+                              f"macro call: {oP} {reject_msgs(rp[i])!r}; the same program with the CALLER's locals renamed "
+                              f"(a -> cq_a, ...): {oC} {reject_msgs(rc[i])!r} — hygienic code of the macro depends on the "
+                              f"names of the caller's variables"))
             if oP != oF:
                 fails.append(("hygiene-differs",
                               f"macro call with colliding names: {oP} {reject_msgs(rp[i])!r}; same macro with its locals "
@@ -713,6 +742,9 @@ def variants(prog):
         if e[0] == "add":
             yield e[1]
             yield e[2]
+        if e[0] == "mcall":
+            yield e[2]
+            yield ["mcall", e[1], ["int", 1]]
         if e[0] == "let":
             yield e[2]
             yield ["let", e[1], ["int", 1], e[3]]
@@ -750,6 +782,8 @@ def rename_macro_local(prog, old, new):
             return ["add", ex(e[1]), ex(e[2])]
         if e[0] == "let":
             return ["let", new if e[1] == old else e[1], ex(e[2]), ex(e[3])]
+        if e[0] == "mcall":
+            return ["mcall", e[1], ex(e[2])]
         return e
 
     def st(stmts):
@@ -819,6 +853,8 @@ def canonical(prog):
             return ["add", ex(e[1]), ex(e[2])]
         if e[0] == "let":
             return ["let", e[1], ex(e[2]), ex(e[3])]
+        if e[0] == "mcall":
+            return ["mcall", e[1], ex(e[2])]
         return e
 
     def st(stmts):
